@@ -214,9 +214,30 @@ pub trait Runner<T: El> {
     fn run(cfg: MCfg, plan: &Plan<T>, ts: &[T]) -> (Vec<T>, usize, Probe<T>);
 }
 
+thread_local! {
+    /// When set, score matrices are built in a buffer that previously held 3 more rows filled with
+    /// the planted peak value (a reused, shrunk buffer): rows past the logical end must be invisible.
+    static SHRUNK: std::cell::Cell<bool> = const { std::cell::Cell::new(false) };
+}
+
 fn build<T: El, C: PositiveLength>(plan: &Plan<T>, bg: &dyn Fn(usize, usize, usize, usize, usize) -> T) -> (StripedScores<T, C>, Vec<T>) {
     let cols = C::USIZE;
-    let s = cfgs::build_scores::<T, C>(plan.rows, plan.rows * cols, |r, c| cell(plan, bg, r, c, cols));
+    let s = if SHRUNK.with(|x| x.get()) {
+        let junk = plan.planted.first().map(|p| p.2);
+        let mut s = cfgs::build_scores::<T, C>(plan.rows + 3, (plan.rows + 3) * cols, |r, c| match junk {
+            Some(v) => v,
+            None => cell(plan, bg, r.min(plan.rows.saturating_sub(1)), c, cols),
+        });
+        s.resize(plan.rows, plan.rows * cols);
+        for r in 0..plan.rows {
+            for c in 0..cols {
+                s.matrix_mut()[MatrixCoordinates::new(r, c)] = cell(plan, bg, r, c, cols);
+            }
+        }
+        s
+    } else {
+        cfgs::build_scores::<T, C>(plan.rows, plan.rows * cols, |r, c| cell(plan, bg, r, c, cols))
+    };
     let mut cells = Vec::with_capacity(plan.rows * cols);
     for r in 0..plan.rows {
         cells.extend_from_slice(&s.matrix()[r]);
@@ -333,6 +354,12 @@ pub fn plan_json<T: El>(plan: &Plan<T>, cfg: MCfg, ts: &[T]) -> Value {
     })
 }
 
+fn plan_json_tag<T: El>(plan: &Plan<T>, cfg: MCfg, ts: &[T], tag: &str) -> Value {
+    let mut v = plan_json(plan, cfg, ts);
+    v["shrunk_buffer"] = json!(!tag.is_empty());
+    v
+}
+
 pub fn check_plan<T: El + Runner<T>>(plan: &Plan<T>, cfg: MCfg, ts: &[T], rep: &mut Report) {
     // planted cells must fit this configuration's column count
     let cols = cfg.lanes();
@@ -340,16 +367,27 @@ pub fn check_plan<T: El + Runner<T>>(plan: &Plan<T>, cfg: MCfg, ts: &[T], rep: &
         return;
     }
     let nontrivial = plan.rows > 0;
+    // small matrices are also probed in a reused buffer that was 3 rows larger before
+    if plan.rows <= 12 && plan.planted.len() <= 1 && !SHRUNK.with(|x| x.get()) {
+        SHRUNK.with(|x| x.set(true));
+        check_plan_inner(plan, cfg, ts, rep, " shrunk-buffer");
+        SHRUNK.with(|x| x.set(false));
+    }
+    check_plan_inner(plan, cfg, ts, rep, "");
+}
+
+fn check_plan_inner<T: El + Runner<T>>(plan: &Plan<T>, cfg: MCfg, ts: &[T], rep: &mut Report, tag: &str) {
+    let nontrivial = plan.rows > 0;
     rep.eval_distinct(nontrivial);
     match catch(|| <T as Runner<T>>::run(cfg, plan, ts)) {
         Err(p) => rep.violation(
-            format!("C07 {} {} panic {}", T::NAME, cfg.name(), vx_core::util::panic_class(&p)),
+            format!("C07 {} {}{} panic {}", T::NAME, cfg.name(), tag, vx_core::util::panic_class(&p)),
             format!("panic: {}", p),
-            || plan_json(plan, cfg, ts),
+            || plan_json_tag(plan, cfg, ts, tag),
         ),
         Ok((cells, cols, got)) => {
             if let Err((sig, msg)) = judge(&cells, plan.rows, cols, ts, &got, true) {
-                rep.violation(format!("C07 {} {} {}", T::NAME, cfg.name(), sig), msg, || plan_json(plan, cfg, ts));
+                rep.violation(format!("C07 {} {}{} {}", T::NAME, cfg.name(), tag, sig), msg, || plan_json_tag(plan, cfg, ts, tag));
             }
         }
     }
@@ -565,7 +603,7 @@ pub fn run(ctx: &mut Ctx, rep: &mut Report) {
             "planted",
             "product: element type {f32,u8} x configuration {generic U1,U2,U4,U16,U32,U64; sse2 U16,U32,U48,U64; avx2 U32; dispatcher arms; StripedScores API under each arm; Scores on the unstriped vector} \
              x rows {0..=40,255,256,257,1000 (+64,100,511,2000,5000 thorough)} x background {all -inf, all -5, all 0, descending ramp (all negative), centred ramp, tiny negative ramp | u8: 0, 7, two ramps} \
-             x maximum planted at every column of every row (rows<=40) or of first/last 3 rows + stride sweep, plus duplicated maxima across column halves/rows x threshold menu (below all, planted value and neighbours, background values, above all); \
+             x maximum planted at every column of every row (rows<=40) or of first/last 3 rows + stride sweep, plus duplicated maxima across column halves/rows x threshold menu (below all, planted value and neighbours, background values, above all); matrices of <= 12 rows are probed both in a fresh buffer and in a reused buffer that held 3 more rows before (stale rows must be invisible); \
              oracle: scalar scan of the cells read back through the public matrix; non-trivial = rows>0; cases distinct by construction",
         );
         run_planted::<f32>(ctx, rep, &mut base, N_BG_F32, peak_f32, thr_f32);
@@ -613,6 +651,7 @@ pub fn replay(_ctx: &mut Ctx, rep: &mut Report, v: &Value) {
                 };
                 let ts: Vec<T> = v["thresholds"].as_array().unwrap().iter().map(T::from_json).collect();
                 check_plan(&plan, cfg, &ts, rep);
+                let _ = v["shrunk_buffer"].as_bool();
             }
             if v["type"].as_str().unwrap() == "f32" {
                 go::<f32>(v, cfg, rep)
